@@ -31,7 +31,7 @@ for d in sorted(glob.glob(os.path.join(V, "seeded", "C*-*"))):
     rows.append("| %s | %s | %s | %s |" % (sid, title.replace("|", "/").replace("**", "")[:110], needs.replace("**", ""), "; ".join(det) or "not run"))
 table = "\n".join(["| seed | change | needs, to manifest | caught by (check, tier: first violation key) |", "|---|---|---|---|"] + rows)
 caught = sum(1 for f in caught_flags if f)
-text = ("%d changes were produced in two rounds by fresh sub-agents" % len(rows) + " that saw only a property's text and a scratch worktree of /repo; each was\n"
+text = ("%d changes were produced in four rounds by fresh sub-agents" % len(rows) + " that saw only a property's text and a scratch worktree of /repo (C15-5 alone is the main session's: the reverse of a fix); each was\n"
         "confirmed by the main session (`tools/confirm_seed.sh`: demo exits 0 without and non-zero with the change; the full test suite\n"
         "still passes with it) and is kept under `seeded/<id>/` (patch.diff, demo.py, notes.md, meta.json, confirm.json,\n"
         "detect-<check>.json). `tools/try_seed.sh` applies a patch in a scratch worktree (`VERIF_REPO`), runs the check and records the\n"
